@@ -7,5 +7,6 @@ CONSTANTS
 INVARIANT ExactOK
 INVARIANT EmptyOK
 INVARIANT FarOK
+INVARIANT ReentryOK
 INVARIANT Emit
 CHECK_DEADLOCK FALSE
